@@ -54,6 +54,10 @@ def run(oc, tier, seed, model_available, escalate):
         tree = es.gen_tree(rng, P, nfiles=rng.randint(1, 3), maxsize=1000 if P.mbs >= 20 else 150)
         if not tree:
             continue
+        if it % 4 == 1 and P.mbs >= 20:
+            P, fsz = es.boundary_params(rng, P)
+            tree["boundary.bin"] = bytes(rng.randrange(256) for _ in range(fsz))
+            oc.count("directed: block starting exactly at --size")
         root = os.path.join(d, "root")
         eu.write_tree(root, tree)
         ecc = os.path.join(d, "ecc.txt")
